@@ -52,7 +52,17 @@ def run(ctx):
 
 def _replace_chain(ctx, f, node):
     removed = []
-    while isinstance(node, ast.Call) and isinstance(node.func, ast.Attribute) and node.func.attr == 'replace' and len(node.args) == 2:
+    while isinstance(node, ast.Call) and isinstance(node.func, ast.Attribute) and not node.keywords and (
+            (node.func.attr == 'replace' and len(node.args) == 2) or (node.func.attr == 'translate' and len(node.args) == 1)):
+        if node.func.attr == 'translate':
+            # a constant translation table is the chain of its single-character replacements (deletions when the value is None)
+            okt, table = ctx.ce.try_eval(node.args[0], f.module, f.cls, {})
+            if not (okt and isinstance(table, dict) and all(isinstance(k_, int) for k_ in table)):
+                return None, None
+            for k_, v_ in table.items():
+                removed.append((chr(k_), '' if v_ is None else (chr(v_) if isinstance(v_, int) else v_)))
+            node = node.func.value
+            continue
         ok1, a = ctx.ce.try_eval(node.args[0], f.module)
         ok2, b = ctx.ce.try_eval(node.args[1], f.module)
         if not (ok1 and ok2):
@@ -485,7 +495,21 @@ def r6_chords(ctx):
     kw = ch.node.args.kwarg.arg if ch.node.args.kwarg else None
     loops = [n for n in walk_local(ch.node) if isinstance(n, ast.For) and src(n.iter) == 'self.notes_tokens']
     ok = kw is not None and len(loops) == 1
-    if ok:
+    if kw is not None and not loops:
+        # the same as one expression: a comprehension / generator over all the notes (no filter) whose element is the note's own
+        # export with the caller's keywords
+        comps = [n for n in walk_local(ch.node) if isinstance(n, (ast.GeneratorExp, ast.ListComp)) and len(n.generators) == 1
+                 and src(n.generators[0].iter) == 'self.notes_tokens']
+        if not comps:
+            raise AnalysisError(f'{ch.loc}: ChordToken.export is neither a loop nor a comprehension over self.notes_tokens')
+        ok = len(comps) == 1 and not comps[0].generators[0].ifs and isinstance(comps[0].generators[0].target, ast.Name)
+        if ok:
+            v = comps[0].generators[0].target.id
+            calls = [c for c in ast.walk(comps[0].elt) if isinstance(c, ast.Call) and isinstance(c.func, ast.Attribute) and c.func.attr == 'export'
+                     and F.is_name(c.func.value, v)]
+            ok = len(calls) == 1 and calls[0] is comps[0].elt and len(calls[0].keywords) == 1 and calls[0].keywords[0].arg is None \
+                and F.is_name(calls[0].keywords[0].value, kw) and not calls[0].args
+    elif ok:
         lp = loops[0]
         # on every path through the loop body: exactly one note.export(**kwargs)
         for sp in symex.sym_paths(lp.body, fi=ch):
